@@ -93,6 +93,8 @@ def main(argv=None):
     if REPO != "/repo":
         sys.path.insert(0, REPO)
     t0 = time.time()
+    import warnings
+    warnings.simplefilter("ignore")     # checks that need warnings record them explicitly
     from hvmc.engine.core import Ctx, digest
     import hvsrpy
     src = os.path.dirname(os.path.abspath(hvsrpy.__file__))
